@@ -251,7 +251,7 @@ mod verif_chain_kb {
             if r { assert!(!has(&s, x) || has(&o, x), "is_encompassed ==> every x in self is in other"); }
         });
     }}
-    //@harness chain_kb_encompassed_n3 Kb fn=Chain::is_encompassed bound="chains of at most 3 blocks, bounds and probe symbolic" timeout=900
+    //@harness chain_kb_encompassed_n3 Kb fn=Chain::is_encompassed bound="chains of at most 3 blocks, bounds and probe symbolic" timeout=900 thorough
     encompassed_body!(chain_kb_encompassed_n3, 7, 3);
 
     macro_rules! eq_body { ($name:ident, $unwind:literal, $bound:expr) => {
@@ -263,6 +263,9 @@ mod verif_chain_kb {
             assert!((os == oo) == r, "OwnedChain == is Chain ==");
         });
     }}
+    //@harness chain_kb_encompassed_n2 Kb fn=Chain::is_encompassed bound="chains of at most 2 blocks, bounds and probe symbolic" timeout=900
+    encompassed_body!(chain_kb_encompassed_n2, 5, 2);
+
     //@harness chain_kb_eq_n3 Kb fn=Chain::eq bound="chains of at most 3 blocks, bounds and probe symbolic" timeout=900
     eq_body!(chain_kb_eq_n3, 5, 3);
 
@@ -334,7 +337,7 @@ mod verif_chain_kb {
     from_iter_body!(chain_kb_from_iter_sorted_n3, 5, 3, false, true, #[kani::stub(crate::repository::resources::chain::from_iter_unsorted, no_unsorted)]);
     //@harness chain_kb_from_iter_unsorted_n2 Kb fn=OwnedChain::from_iter,from_iter_unsorted,merge_or_add_block bound="exactly 2 input blocks, the second starts below the first (slow path), bounds and probe symbolic" timeout=900
     from_iter_body!(chain_kb_from_iter_unsorted_n2, 4, 2, true, false);
-    //@harness chain_kb_from_iter_unsorted_n3 Kb fn=OwnedChain::from_iter,from_iter_unsorted,merge_or_add_block bound="exactly 3 input blocks, lower bounds not ascending (slow path), bounds and probe symbolic" timeout=1800
+    //@harness chain_kb_from_iter_unsorted_n3 Kb fn=OwnedChain::from_iter,from_iter_unsorted,merge_or_add_block bound="exactly 3 input blocks, lower bounds not ascending (slow path), bounds and probe symbolic" timeout=1800 thorough
     from_iter_body!(chain_kb_from_iter_unsorted_n3, 5, 3, true, false);
 }
 //@end
